@@ -404,7 +404,7 @@ impl Gen {
                 // sum(0) is not generated: whether "the identity" returns the same node or a copy is not
                 // fixed by any property, and the shadow would have to assume one of the two
                 let kk = match self.rng.weighted(&[30, 45, 25]) {
-                    0 => 1 + self.rng.below(xd.len()),
+                    0 => 1 + self.rng.below(xd.len() + 1), // also more dimensions than the array has
                     1 => 1,
                     _ => xd.len(),
                 };
